@@ -22,10 +22,10 @@ def jobs_for(tier):
     jobs = []
     if tier == 'quick':
         tpls = corpus.select(feats={'basic', 'ext', 'int', 'enum', 'str', 'tag', 'set', 'bits', 'octets', 'of'},
-                             exclude={'manyadd', 'real', 'heavy'})
+                             exclude={'manyadd', 'real', 'heavy', 'spill'})
         tpls = [t for t in tpls if t['id'] not in ('combo-seqof-seq', 'combo-ext-nest')]
     else:
-        tpls = [t for t in corpus.TEMPLATES if not (t['feats'] & {'real'})] + corpus.generated(exclude={'real'})
+        tpls = [t for t in corpus.TEMPLATES if not (t['feats'] & {'real', 'spill'})] + corpus.generated(exclude={'real'})
     if tier == 'quick':
         tpls = tpls + corpus.generated(quick=True, exclude={'real'})
     for t in tpls:
